@@ -35,6 +35,12 @@ Which datapoints are ACCEPTED (the statements speak about accepted datapoints on
   The differential checks both directions: a datapoint of an accepted series must not be rejected, a datapoint of a
   series that cannot be served must not be accepted.
 
+Protocols: a datapoint may arrive as OpenTSDB JSON (tag values JSON strings, or JSON numbers = their text) or through
+Prometheus remote write (label values raw strings: a backslash is a backslash).  The series identity is the metric
+name and the label set of VALUES — the protocol, the JSON spelling of a value and the number of series that share a
+value (more than 65535: the tags tree file stores the TSID count of a value in 16 bits, command `mc` of the Oracle) do
+not occur in the spec.
+
 Engine conventions the spec has to know in order to state the guard under which "same timestamp" is
 meaningful: the engine reports every point at the start of its downsample bucket, bucket width =
 `calcInterval (end - start)` (pkg/segment/results/mresults/metricresults.go `steps`/`CalculateInterval`,
@@ -48,6 +54,11 @@ structure Series where
   name : String
   labels : List (String × String)     -- distinct keys
   points : List (Nat × Nat)           -- (timestamp seconds, float64 bit pattern), the INGESTED points
+  /-- keys whose value was sent as a bare JSON NUMBER (`"k":5`) by some OTSDB datapoint: the label value is the number's
+      text as sent (tag values are strings in every query language; `"k":5` and `"k":"5"` are the same tag) -/
+  numKeys : List String := []
+  /-- some point of the series arrived through Prometheus remote write (label values are raw strings there) -/
+  viaRW : Bool := false
 deriving Repr, Inhabited
 
 inductive MOp where | eq | ne | re | nre
@@ -224,7 +235,8 @@ Classes of RECORDED deviations (`known:` lines): `absent-label-matcher` (matcher
 `value-has-comma`, `empty-group-key`, `name-regex-same-tagset` (aggregations only).
 Classes of REPAIRED deviations (`fixed:` lines) are still computed, so that a disagreement in such a class is
 reported under its old name should the defect return: `tsid-preimage-collision`, `no-tags`,
-`json-escaped-tag-value`, `same-label-twice`, `regex-on-empty-value`, `tag-value-over-64k`, `matcher-on-missing-key`
+`json-escaped-tag-value`, `same-label-twice`, `regex-on-empty-value`, `tag-value-over-64k`, `matcher-on-missing-key`,
+`numeric-tag-value`, `remote-write-escape`, `tsids-per-value-over-64k` (command `mc`)
 (the repaired part of the former `absent-label-matcher`) (and `negative-zero`,
 which the comparison derives from the values; the repaired selector part of `name-regex-same-tagset` is detected
 by the comparison as e2em/name-regex-selector-reports-star).  The comparison
@@ -303,11 +315,16 @@ def classes (ds : List Series) (q : Query) (sel : List (Series × List (Nat × N
                    s.labels.any (fun kv => kv.1 == m.label && kv.2.isEmpty) && !m.ok s)) then ["regex-on-empty-value"] else []
   -- some ingested series has a tag value longer than 65535 bytes (repaired: rejected at ingest)
   let c6d := if ingested.any (fun s => s.labels.any (fun kv => kv.2.utf8ByteSize > maxTagValueBytes)) then ["tag-value-over-64k"] else []
+  -- (repaired) some ingested series had a tag value sent as a JSON number (stored under a hash no query computes, typed
+  -- entries that the open-segment iterator and the rotated exact-match reader could not handle)
+  let c6e := if ingested.any (fun s => !s.numKeys.isEmpty) then ["numeric-tag-value"] else []
+  -- (repaired) a label value with a backslash or a quote that arrived through remote write (it was JSON-unescaped)
+  let c6f := if ingested.any (fun s => s.viaRW && s.labels.any (fun kv => kv.2.contains '"' || kv.2.contains '\\')) then ["remote-write-escape"] else []
   let c7 := match q.agg with
     | none => []
     | some a =>
       (if a.mode != .none && sel.any (fun (s, _) => (groupKey a s).isEmpty) then ["empty-group-key"] else [])
-  c1 ++ c2 ++ c3 ++ c3b ++ c4 ++ c5 ++ c6 ++ c6b ++ c6c ++ c6d ++ c7
+  c1 ++ c2 ++ c3 ++ c3b ++ c4 ++ c5 ++ c6 ++ c6b ++ c6c ++ c6d ++ c6e ++ c6f ++ c7
 
 def isSmallInt (q : Rat) : Bool := q.den == 1 && q.num.natAbs < pow2 40
 
